@@ -91,6 +91,11 @@ def dispatch(eng, func, args, kwargs):
 
     out = func(*args, **kwargs)
 
+    if not anysym and name not in PURE_FACTORIES and name not in EMPTY_OPS and eng.track_constants:
+        # concrete float computations are mirrored too: a rounded constant (sqrt(2.5), 1/3, 0.1*3) fed into symbolic
+        # arithmetic would otherwise break exact identities by one ulp
+        if any(t.layout == torch.strided and t.dtype in FLOAT_DT and t.numel() <= 4096 for t in tens):
+            anysym = True
     if name in EMPTY_OPS:
         o = out
         if isinstance(o, torch.Tensor) and o.layout == torch.strided and o.dtype in FLOAT_DT and o.numel() <= 4096:
@@ -204,7 +209,8 @@ def check(eng, func, t):
         scale = max([abs(x) for x in real if x == x and abs(x) != float("inf")] + [1.0])
         for i, (g, r) in enumerate(zip(got, real)):
             if g != g or r != r or abs(g) == float("inf") or abs(r) == float("inf"):
-                continue  # non-finite at the witness: outside R semantics, not comparable
+                eng.diverged = True  # non-finite at the witness: outside R semantics; this path can no longer confirm
+                return
             if abs(g - r) > (2e-3 if tol32 else 1e-6) * scale:
                 eng.mismatches = getattr(eng, "mismatches", 0) + 1
                 if eng.strict_crosscheck:
@@ -1183,3 +1189,4 @@ def _diag_embed(eng, b, func, out):
 
 from . import sparse as _sparse  # noqa: E402,F401  (registers handlers)
 from . import fft as _fft  # noqa: E402,F401
+from . import lapack as _lapack  # noqa: E402,F401
